@@ -1,4 +1,5 @@
 import UtilModel.Lemmas.DateBasics
+import UtilModel.Lemmas.CodeTiesDate
 /-!
 # C15 — Date range filter contains exactly the inclusive interval
 -/
@@ -102,5 +103,33 @@ theorem contains_iff (fr to : Option Date) (F : Filter) (x : Date)
 example : Proper (new 2024 2 29) := proper_new (by decide) (by decide)
 example : filterFromTo (some (new 2024 3 1)) (some (new 2024 2 29)) = .err .invalidFromOrTo := by decide
 example : (filterFromTo (some (new 2024 2 28)) (some (new 2024 3 1))).map (·.contains (new 2024 2 29)) = .ok true := by decide
+
+/-- **tie to the source**: the five `Contains` methods of `date/filter.go`, translated on this run into Boolean
+formulas over the translated `Equal`/`Before`/`After` (`Gen.date_filter*_Contains`), compute `Filter.contains` -/
+theorem contains_code_tie (F : Filter) (x : Date) :
+    F.contains x = match F with
+      | .no => Gen.date_filterNo_Contains x.year x.month x.day
+      | .date d => Gen.date_filterDate_Contains d.year d.month d.day x.year x.month x.day
+      | .from f => Gen.date_filterFrom_Contains f.year f.month f.day x.year x.month x.day
+      | .to t => Gen.date_filterTo_Contains t.year t.month t.day x.year x.month x.day
+      | .fromTo f t => Gen.date_filterFromTo_Contains f.year f.month f.day t.year t.month t.day x.year x.month x.day := by
+  cases F
+  · exact CodeTies.contains_no_tie x
+  · exact CodeTies.contains_to_tie _ x
+  · exact CodeTies.contains_from_tie _ x
+  · exact CodeTies.contains_date_tie _ x
+  · exact CodeTies.contains_fromTo_tie _ _ x
+
+/-- **tie to the source**: the decision structure of `FilterFromTo` as translated on this run (`nil` bounds are
+`none`; the result is the Go type of the filter built with its `Date` fields, or the sentinel the error wraps)
+is the model's `filterFromTo` -/
+theorem build_code_tie (fr to : Option Date) :
+    CodeTies.encOut CodeTies.encFilter (filterFromTo fr to)
+      = Gen.date_FilterFromTo fr.isNone (fr.getD zero).year (fr.getD zero).month (fr.getD zero).day
+          to.isNone (to.getD zero).year (to.getD zero).month (to.getD zero).day :=
+  CodeTies.filterFromTo_tie fr to
+
+example : CodeTies.encOut CodeTies.encFilter (filterFromTo (some (new 2024 3 1)) (some (new 2024 2 29))) = .error "ErrInvalidFromOrTo" := rfl
+example : CodeTies.encOut CodeTies.encFilter (filterFromTo none (some ⟨2023, 1, 28⟩)) = .ok ("filterTo", [(2023, 1, 28)]) := rfl
 
 end U.Props.C15
